@@ -314,6 +314,28 @@ def delims(rc):
             if re.fullmatch(r"[\w ]+", pat):
                 rc.fail(f, c, f"{q}: the file is split at every occurrence of the bare word {pat!r}; a variable or state name containing it (the writer emits user names "
                         f"verbatim) corrupts the block structure", construct=f"{q} bare-word delimiter")
+    # the table-vs-conditional test of a probability block must not be fooled by state names (evaluated on sample blocks)
+    vb = repo.func(BIF, "BIFReader._get_values_from_block")
+    pats = [c for c in repo.calls_in(vb) if call_name(c) in ("search", "match", "findall", "fullmatch") and dotted(c.func.value) == "re" and c.args and const_str(c.args[0]) is not None]
+    cond_block = "probability ( a | b ) {\n    ( default ) 0.2, 0.8;\n    ( table ) 0.5, 0.5;\n}"
+    cond_block2 = "probability ( a | b, c ) {\n    ( low, default ) 0.2, 0.8;\n    ( high, table ) 0.5, 0.5;\n}"
+    table_block = "probability ( a ) {\n    table 0.2, 0.8 ;\n}"
+    for c in pats:
+        pat = const_str(c.args[0])
+        fn = getattr(re, call_name(c))
+        try:
+            hit_cond = [bool(fn(pat, b)) for b in (cond_block, cond_block2)]
+            hit_table = bool(fn(pat, table_block))
+        except re.error:
+            raise AnalysisError(f"BIF: invalid table pattern {pat!r}")
+        rc.ob(f"BIF table-block pattern {pat!r}: matches a table block {hit_table}; matches conditional rows whose states are called default/table {hit_cond}")
+        if not hit_table:
+            rc.fail(vb, c, f"BIF: the pattern {pat!r} no longer recognises a `table` block", construct="BIF table pattern misses table")
+        if any(hit_cond):
+            rc.fail(vb, c, f"BIF: the pattern {pat!r} also fires on conditional rows whose parent STATE is named `default`/`table`: such a block is then parsed as a flat table",
+                    construct="BIF table pattern matches state names")
+    if not pats:
+        raise AnalysisError("BIF: table/conditional discrimination not found")
     # writers: no str()/repr() of a whole ndarray
     for rel in (BIF, XML, UAI, NET):
         mod = repo.module(rel)
@@ -417,6 +439,8 @@ MUTANTS = [
          old='num_expr = Word(nums + "-" + "+" + "e" + "E" + ".") + Suppress(Optional(","))', new='num_expr = Word(nums + "-" + "+" + ".") + Suppress(Optional(","))'),
     dict(kind="break", name="bif-bare-word-delimiter", file=BIF, expect="C09.delims",
          old='start = re.finditer(r"\\bprobability\\s*\\(", self.network)', new='start = re.finditer("probability", self.network)'),
+    dict(kind="break", name="bif-table-test-unanchored", file=BIF, expect="C09.delims",
+         old='if bool(re.search(".*\\n[ ]*(table|default) .*\\n.*", block)):', new='if re.search(r"\\s(table|default)\\s", block):'),
     dict(kind="break", name="net-str-ndarray", file=NET, expect="C09.delims",
          old="cpt_string = np.array2string(cpt_array, threshold=cpt_array.size + 1)", new="cpt_string = str(cpt_array)"),
     dict(kind="break", name="load-uai-with-bif-reader", file=BN, expect="C09.dispatch",
